@@ -1087,7 +1087,11 @@ def elem_of(self, itv: Term, lid: int, st: State) -> Term:
         kind = itv.args[0]
         if kind == "enumerate":
             inner = self.elem_of(itv.args[1], lid, st)
-            return mk("tuple", (mk("index", lid), inner))
+            start = itv.args[2] if len(itv.args) > 2 else C(0)
+            idx = mk("index", lid)
+            if not (is_const(start) and cval(start) == 0):
+                idx = mk("bin", "Add", idx, start)
+            return mk("tuple", (idx, inner))
         if kind == "zip":
             return mk("tuple", tuple(self.elem_of(x, lid, st) for x in itv.args[1].args[0]))
         if kind == "items":
